@@ -664,19 +664,6 @@ Proof.
 Qed.
 
 (* ------------------------------------------------------------------ [3d] the lost update *)
-Definition lu_d1 : fdef := {| fname := 1; inputs := [0]; c0 := 0%Z; coefs := [1%Z] |}.
-Definition lu_d2 : fdef := {| fname := 2; inputs := [0]; c0 := 0%Z; coefs := [2%Z] |}.
-Definition lu_a1 : action := ACalc 0 [lu_d1].
-Definition lu_a2 : action := ACalc 0 [lu_d2].
-Definition lu_steps : list istep := [(1, lu_a1); (2, lu_a2)].
-Definition lu_store : store := [(0, [(0, [Some 5%Z; Some 7%Z])])].
-Definition lu_ev : list mevent := [Read 1; Read 2; Write 1; Write 2].
-Definition has_col (o : outcome) (obj f : nat) : bool :=
-  match o with
-  | Ok s => match get_obj s obj with Some t => match lookup t f with Some _ => true | None => false end | None => false end
-  | _ => false
-  end.
-
 (* two DEPENDENT steps on one object, both read, then both write: the column written by the first is lost, although
    both sequential orders have it *)
 Lemma lost_update_refuted_l :
@@ -710,4 +697,95 @@ Proof.
   { unfold has_col. destruct (mrun 2 lu_steps lu_store [] lu_ev) as [s1| |], (exec 2 lu_store l) as [s2| |];
       cbn in E; try contradiction; try reflexivity. rewrite (E 0). reflexivity. }
   destruct Hl as [-> | ->]; vm_compute in C; discriminate C.
+Qed.
+
+(* ------------------------------------------------------------------ [4] bridge to OrchCheck.conflict_free *)
+Lemma foot_of_steps_act : forall steps i,
+  OrchCheck.foot_of (foot_of_steps steps) i = option_map (fun a => (wr a, rd a)) (act_of steps i).
+Proof.
+  induction steps as [|[k a] t IH]; intros i; [reflexivity|]. cbn. destruct (Nat.eqb k i); [reflexivity | apply IH].
+Qed.
+
+(* `independent` is exactly the negation of the classifier's `conflicting` on the steps' footprints *)
+Lemma conflicting_independent_l : forall steps i j a b, act_of steps i = Some a -> act_of steps j = Some b ->
+  OrchCheck.conflicting (foot_of_steps steps) i j = negb (independent a b).
+Proof.
+  intros steps i j a b Ai Aj. unfold OrchCheck.conflicting. rewrite !foot_of_steps_act, Ai, Aj. cbn.
+  unfold independent. rewrite negb_involutive. reflexivity.
+Qed.
+
+Lemma flat_map_nil : forall (A B : Type) (f : A -> list B) l, flat_map f l = [] -> forall x, In x l -> f x = [].
+Proof.
+  intros A B f. induction l as [|y l IH]; intros H x Hx; [destruct Hx|]. cbn in H. apply app_eq_nil in H.
+  destruct H as [H1 H2]. destruct Hx as [<-|Hx]; [exact H1 | exact (IH H2 x Hx)].
+Qed.
+
+Lemma conflict_free_pairs : forall p f, OrchCheck.conflict_free p f = true ->
+  forall a b, In a p -> In b p -> Orch.sid a < Orch.sid b -> OrchCheck.conflicting f (Orch.sid a) (Orch.sid b) = true ->
+  Orch.mem (Orch.sid a) (OrchCheck.waits_for p b) = true \/ Orch.mem (Orch.sid b) (OrchCheck.waits_for p a) = true.
+Proof.
+  intros p f H a b Ha Hb Hlt Hc. unfold OrchCheck.conflict_free in H.
+  destruct (OrchCheck.unordered_conflicts p f) as [|x l] eqn:E; [|discriminate H]. unfold OrchCheck.unordered_conflicts in E.
+  pose proof (flat_map_nil _ _ _ _ E a Ha) as E1. cbn beta in E1. pose proof (flat_map_nil _ _ _ _ E1 b Hb) as E2. cbn beta in E2.
+  apply Nat.ltb_lt in Hlt. rewrite Hlt, Hc in E2.
+  destruct (Orch.mem (Orch.sid a) (OrchCheck.waits_for p b)); [left; reflexivity|].
+  destruct (Orch.mem (Orch.sid b) (OrchCheck.waits_for p a)); [right; reflexivity|]. discriminate E2.
+Qed.
+
+(* a plan the classifier accepts (with the footprints of its steps' actions) orders all dependent steps by wait-for *)
+Lemma conflict_free_dependent_ordered_l : forall p steps,
+  NoDup (map fst steps) ->
+  (forall i, In i (map fst steps) -> exists st, In st p /\ Orch.sid st = i) ->
+  OrchCheck.conflict_free p (foot_of_steps steps) = true ->
+  dependent_ordered (waits_before p) steps.
+Proof.
+  intros p steps ND Hp HC [i a] [j b] Hx Hy Hne Hdep. cbn [fst snd] in *.
+  destruct (Hp i (in_map fst _ _ Hx)) as [si [Hsi Ei]]. destruct (Hp j (in_map fst _ _ Hy)) as [sj [Hsj Ej]].
+  pose proof (In_act_of steps i a ND Hx) as Ai. pose proof (In_act_of steps j b ND Hy) as Aj.
+  assert (W : forall u v su sv, In su p -> In sv p -> Orch.sid su = u -> Orch.sid sv = v ->
+              Orch.mem u (OrchCheck.waits_for p sv) = true -> waits_before p u v = true).
+  { intros u v su sv _ Hsv _ Ev M. unfold waits_before. apply existsb_exists. exists sv. split; [exact Hsv|].
+    rewrite Ev, Nat.eqb_refl, M. reflexivity. }
+  destruct (Nat.lt_trichotomy i j) as [L|[L|L]]; [| contradiction |].
+  - destruct (conflict_free_pairs p _ HC si sj Hsi Hsj) as [M|M].
+    + rewrite Ei, Ej. exact L.
+    + rewrite Ei, Ej, (conflicting_independent_l steps i j a b Ai Aj), Hdep. reflexivity.
+    + left. rewrite Ei in M. exact (W i j si sj Hsi Hsj Ei Ej M).
+    + right. rewrite Ej in M. exact (W j i sj si Hsj Hsi Ej Ei M).
+  - destruct (conflict_free_pairs p _ HC sj si Hsj Hsi) as [M|M].
+    + rewrite Ei, Ej. exact L.
+    + rewrite Ei, Ej, (conflicting_independent_l steps j i b a Aj Ai), independent_sym, Hdep. reflexivity.
+    + right. rewrite Ej in M. exact (W j i sj si Hsj Hsi Ej Ei M).
+    + left. rewrite Ei in M. exact (W i j si sj Hsi Hsj Ei Ej M).
+Qed.
+
+(* conflict_free => confluent: for a plan accepted by the classifier, every schedule that respects wait-for computes the
+   result of any wait-for-compatible sequential order *)
+Lemma conflict_free_confluent_l : forall n p steps s ev lin,
+  NoDup (map fst steps) ->
+  (forall i, In i (map fst steps) -> exists st, In st p /\ Orch.sid st = i) ->
+  OrchCheck.conflict_free p (foot_of_steps steps) = true ->
+  wf_interleaving steps ev -> scheduled (waits_before p) steps ev ->
+  Permutation steps lin -> respects (waits_before p) lin ->
+  outcome_eq (mrun n steps s [] ev) (exec n s (map snd lin)).
+Proof.
+  intros n p steps s ev lin ND Hp HC. apply conflict_free_schedules_l; [exact ND|].
+  apply conflict_free_dependent_ordered_l; assumption.
+Qed.
+
+(* two schedules of a conflict-free plan agree with each other *)
+Lemma conflict_free_two_schedules_l : forall n before steps s ev1 ev2,
+  NoDup (map fst steps) -> dependent_ordered before steps ->
+  wf_interleaving steps ev1 -> scheduled before steps ev1 ->
+  wf_interleaving steps ev2 -> scheduled before steps ev2 ->
+  outcome_eq (mrun n steps s [] ev1) (mrun n steps s [] ev2).
+Proof.
+  intros n before steps s ev1 ev2 ND HD W1 S1 W2 S2.
+  pose proof (write_steps_perm steps ev2 ND W2) as P2.
+  eapply outcome_eq_trans.
+  - apply (conflict_free_schedules_l n before steps s ev1 (write_steps steps ev2) ND HD W1 S1 (Permutation_sym P2)).
+    apply (write_steps_respects before steps ev2 W2 S2 ev2 []). reflexivity.
+  - apply outcome_eq_sym.
+    apply (conflict_free_schedules_l n before steps s ev2 (write_steps steps ev2) ND HD W2 S2 (Permutation_sym P2)).
+    apply (write_steps_respects before steps ev2 W2 S2 ev2 []). reflexivity.
 Qed.
